@@ -255,17 +255,29 @@ def process_state():
     import os, gc, locale, signal, warnings, threading
     return [sys.getrecursionlimit(), os.getcwd(), len(sys.path), len(warnings.filters), list(locale.getlocale()), sys.getswitchinterval(), repr(signal.getsignal(signal.SIGINT)),
             sorted(os.environ) == sorted(ENV0), gc.isenabled(), list(gc.get_threshold()), threading.active_count(), os.umask(os.umask(0o22) and 0o22) if False else None]
-import os
+import os, tempfile, shutil
 ENV0 = list(os.environ)
+# headers that earlier assemblies include too: a diagnostic raised while parsing or first evaluating a header must be raised again for the probe
+HDIR = tempfile.mkdtemp(prefix="pyvc-c18-hdr-")
+open(os.path.join(HDIR, "strings.mac"), "w").write('.ascii "a\\qb"\n.word 1\n')
+open(os.path.join(HDIR, "nums.mac"), "w").write(".word 8\n.word 1/0\n")
+open(os.path.join(HDIR, "chars.mac"), "w").write(".word 'я, 10\n")
+POOL += ['.include "%%s/strings.mac"\nnop\n' %% HDIR, '.include "%%s/nums.mac"\n' %% HDIR, '.include "%%s/chars.mac"\nhalt\n' %% HDIR]
+PROBE_INC = 'nop\n.include "%%s/strings.mac"\n.include "%%s/nums.mac"\n.include "%%s/chars.mac"\n' %% (HDIR, HDIR, HDIR)
+_run0 = run
+def run(src, _r=_run0):
+    import json
+    return json.loads(json.dumps(_r(src)).replace(HDIR, "<HDR>"))       # the scratch directory's name differs from process to process
 rnd = random.Random(%d)
-first = [run(PROBE), run(PROBE_OK), process_state()]
+first = [run(PROBE), run(PROBE_OK) + [run(PROBE_INC)], process_state()]
 bad = []
 for h in range(%d):
     for _ in range(rnd.randrange(1, 8)):
         run(rnd.choice(POOL))
-    now = [run(PROBE), run(PROBE_OK), process_state()]
+    now = [run(PROBE), run(PROBE_OK) + [run(PROBE_INC)], process_state()]
     if now != first:
         bad.append([h, [i for i in range(3) if now[i] != first[i]], now[2] if now[2] != first[2] else None])
+shutil.rmtree(HDIR, ignore_errors=True)
 result = [first, bad]
 ''' % (driver.tree_root(), int(os.environ.get("VERIF_SEED", "0") or 0), n_hist)
     outs = []
